@@ -242,13 +242,17 @@ Proof.
       apply IH in F. apply pr_count_le in E. lia.
 Qed.
 
-(* the counter cannot wrap before 2^64 records have been processed (a message
-   carries at most 65535 of them) *)
+(* the counter (rr_count_bits wide, T1) cannot wrap on any stream that fits a
+   64-bit address space; a narrower counter breaks [rr_count_width] *)
+Lemma rr_count_width : 64 <= rr_count_bits.
+Proof. unfold rr_count_bits. lia. Qed.
+
 Theorem rr_count_no_overflow ty s rs p' us e :
   flat (proc_new ty s) rs = (p', us, e) ->
-  N.of_nat (length rs) < 18446744073709551616 -> p_count p' < 18446744073709551616.
+  N.of_nat (length rs) < 2 ^ 64 -> p_count p' < 2 ^ rr_count_bits.
 Proof.
-  intros F L. apply flat_count_le in F. cbn [proc_new p_count] in F. lia.
+  intros F L. apply flat_count_le in F. cbn [proc_new p_count] in F.
+  pose proof (N.pow_le_mono_r 2 64 rr_count_bits ltac:(lia) rr_count_width). lia.
 Qed.
 
 Example rr_count_example :
